@@ -563,7 +563,44 @@ fn raw_contents<const N: usize, T: Elem>(buf: &CircularBuffer<N, T>) -> String {
         let r: &T = unsafe { (*base.add(p)).assume_init_ref() };
         v.push(r.show());
     }
-    v.join(",")
+    digest_list(v)
+}
+
+/// Long lists are printed as `#<len>:<h1>.<h2>` (two polynomial hashes of the
+/// `id:val` texts); the model driver prints the same, so equality of the
+/// digests stands for equality of the lists.
+const DIGEST_FROM: usize = 300;
+fn digest_list(v: Vec<String>) -> String {
+    if v.len() < DIGEST_FROM {
+        return v.join(",");
+    }
+    let (mut h1, mut h2): (u64, u64) = (7, 11);
+    for s in &v {
+        for b in s.bytes() {
+            h1 = (h1 * 1000003 + b as u64) % 2147483647;
+            h2 = (h2 * 998244353 + b as u64 + 1) % 2147483629;
+        }
+        h1 = (h1 * 1000003 + 44) % 2147483647;
+        h2 = (h2 * 998244353 + 45) % 2147483629;
+    }
+    format!("#{}:{}.{}", v.len(), h1, h2)
+}
+
+/// id -> physical slot of every live element (tracked element types only)
+fn slot_map<const N: usize, T: Elem>(buf: &CircularBuffer<N, T>) -> std::collections::HashMap<u64, usize> {
+    let mut m = std::collections::HashMap::new();
+    let (st, n, base) = (buf.verif_start(), buf.len(), buf.verif_items_ptr());
+    if N == 0 || n > N || T::ZST {
+        return m;
+    }
+    for i in 0..n.min(1 << 22) {
+        let p = ((st as u128 + i as u128) % (N as u128)) as usize;
+        let r: &T = unsafe { (*base.add(p)).assume_init_ref() };
+        if let Some(id) = r.id_of() {
+            m.insert(id, p);
+        }
+    }
+    m
 }
 
 /// every element in the buffer must be live and distinct
@@ -1578,6 +1615,7 @@ fn run_case<const N: usize, T: Elem>(hdr: &CaseHdr, ops: &[String], out: &mut dy
         ALLOCS.store(0, AO::Relaxed);
         LOG.with(|l| l.borrow_mut().clear());
         out.flush().unwrap();
+        let before = slot_map(&buf);
         let r = catch_unwind(AssertUnwindSafe(|| run_op::<N, T>(&mut buf, &toks, &mut bag, &mut extra)));
         COUNT_ON.store(false, AO::Relaxed);
         set_phase(0);
@@ -1599,11 +1637,15 @@ fn run_case<const N: usize, T: Elem>(hdr: &CaseHdr, ops: &[String], out: &mut dy
         });
         let armed = FAULT.with(|f| f.get().is_some());
         validity(&buf, &mut extra);
+        // surviving elements whose physical slot changed (C20)
+        let after = slot_map(&buf);
+        let moved = before.iter().filter(|(id, p)| after.get(*id).map_or(false, |q| q != *p)).count();
         writeln!(
             out,
-            "i k={} r={} st={} sz={} c={} e={} f={} a={} x={}",
+            "i k={} r={} mv={} st={} sz={} c={} e={} f={} a={} x={}",
             k,
             rs,
+            moved,
             buf.verif_start(),
             buf.len(),
             raw_contents(&buf),
@@ -1719,7 +1761,14 @@ fn real_main() {
         let n: u64 = p_u64(kvs["N"]);
         let hdr = CaseHdr {
             start: p_usize(kvs["start"]),
-            vals: if kvs["vals"] == "-" { vec![] } else { kvs["vals"].split(',').map(p_u64).collect() },
+            vals: if kvs["vals"] == "-" {
+                vec![]
+            } else if let Some(k) = kvs["vals"].strip_prefix('@') {
+                // shorthand for the default contents 10, 20, ..., 10k
+                (1..=p_u64(k)).map(|i| 10 * i).collect()
+            } else {
+                kvs["vals"].split(',').map(p_u64).collect()
+            },
             junk: kvs["junk"].parse().unwrap(),
             fault: match kvs["fault"] {
                 "none" => None,
